@@ -15,6 +15,20 @@ type VerifInvariants struct {
 	BadKeys   int // objects whose key list is not a duplicate-free enumeration of their members
 	BadWhich  int // nodes whose kind tag disagrees with the pointers they hold
 	OtherOpts int // parsed objects that do not carry the options of this call
+	Shared    int // nodes, objects or arrays reached a second time: the live document is not a tree (aliasing or a cycle)
+}
+
+// verifSeen holds the nodes and containers already visited by one walk, so
+// that the walk terminates on a cyclic structure and counts sharing.
+type verifSeen map[any]struct{}
+
+func (s verifSeen) again(p any, inv *VerifInvariants) bool {
+	if _, ok := s[p]; ok {
+		inv.Shared++
+		return true
+	}
+	s[p] = struct{}{}
+	return false
 }
 
 var VerifHooks struct {
@@ -48,17 +62,18 @@ func verifApplyEnd(options *ApplyOptions, pd container) {
 		return
 	}
 	var inv VerifInvariants
+	seen := verifSeen{}
 	switch c := pd.(type) {
 	case *partialDoc:
-		verifWalkDoc(c, options, &inv, 0)
+		verifWalkDoc(c, options, &inv, 0, seen)
 	case *partialArray:
-		verifWalkAry(c, options, &inv, 0)
+		verifWalkAry(c, options, &inv, 0, seen)
 	}
 	f(options, inv)
 }
 
-func verifWalkNode(n *lazyNode, options *ApplyOptions, inv *VerifInvariants, depth int) {
-	if n == nil || depth > 20000 {
+func verifWalkNode(n *lazyNode, options *ApplyOptions, inv *VerifInvariants, depth int, vis verifSeen) {
+	if n == nil || depth > 20000 || vis.again(n, inv) {
 		return
 	}
 	switch n.which {
@@ -68,20 +83,20 @@ func verifWalkNode(n *lazyNode, options *ApplyOptions, inv *VerifInvariants, dep
 			inv.BadWhich++
 			return
 		}
-		verifWalkDoc(n.doc, options, inv, depth+1)
+		verifWalkDoc(n.doc, options, inv, depth+1, vis)
 	case eAry:
 		if n.ary == nil {
 			inv.BadWhich++
 			return
 		}
-		verifWalkAry(n.ary, options, inv, depth+1)
+		verifWalkAry(n.ary, options, inv, depth+1, vis)
 	default:
 		inv.BadWhich++
 	}
 }
 
-func verifWalkDoc(d *partialDoc, options *ApplyOptions, inv *VerifInvariants, depth int) {
-	if d == nil {
+func verifWalkDoc(d *partialDoc, options *ApplyOptions, inv *VerifInvariants, depth int, vis verifSeen) {
+	if d == nil || vis.again(d, inv) {
 		return
 	}
 	inv.Objects++
@@ -100,16 +115,16 @@ func verifWalkDoc(d *partialDoc, options *ApplyOptions, inv *VerifInvariants, de
 		inv.BadKeys++
 	}
 	for _, v := range d.obj {
-		verifWalkNode(v, options, inv, depth)
+		verifWalkNode(v, options, inv, depth, vis)
 	}
 }
 
-func verifWalkAry(a *partialArray, options *ApplyOptions, inv *VerifInvariants, depth int) {
-	if a == nil {
+func verifWalkAry(a *partialArray, options *ApplyOptions, inv *VerifInvariants, depth int, vis verifSeen) {
+	if a == nil || vis.again(a, inv) {
 		return
 	}
 	inv.Arrays++
 	for _, v := range a.nodes {
-		verifWalkNode(v, options, inv, depth)
+		verifWalkNode(v, options, inv, depth, vis)
 	}
 }
